@@ -10,6 +10,7 @@ import ModVerif.Proofs.ZipAClassify
 import ModVerif.Proofs.ZipAPerm
 import ModVerif.Proofs.ZipAVendor
 import ModVerif.Proofs.ZipBPath
+import ModVerif.Proofs.ZipCreate
 namespace ModVerif.ZipSpec
 open ModVerif ModVerif.PathClean ModVerif.Zip
 
@@ -664,5 +665,220 @@ theorem vendored_extend (g : Bool) (d base rest : Bytes) (hb : (47 : UInt8) ∉ 
           rw [e2]
           exact List.mem_append_left _ (List.mem_of_getLast? hx)
       · exact ⟨pre, c' ++ rest, by rw [e1]; simp⟩
+
+
+/-! ### the list check over all files and over the listed files -/
+
+theorem lastElem_slashFree (p : Bytes) : (47 : UInt8) ∉ lastElem p := by
+  unfold lastElem
+  intro hm
+  rw [List.mem_reverse] at hm
+  have := mem_takeWhile _ _ _ hm
+  simp at this
+
+/-- a file the walk leaves out is omitted by an early rule of the list check over all files -/
+theorem earlyRule_of_omittedIn (E : Env) (g : Bool) (A : List FileInfo) (f : FileInfo) (hreg : f.mode = .regular)
+    (hcl : pathClean f.path = f.path) (hrel : isAbs f.path = false) (ho : OmittedIn g A f) :
+    ∃ r, earlyRule E g A f = some (.omitted r) := by
+  have hu : goModUnreadable f = false := by simp [goModUnreadable, hreg]
+  unfold earlyRule
+  by_cases hv : isVendoredPackage f.path g = true
+  · exact ⟨.vendored, by simp [hu, hcl, hrel, hv]⟩
+  · rcases ho with ho | ⟨d, hd, g1, hg1, hr1, hs1⟩
+    · exact absurd ho hv
+    · have hb : BelowModuleRoot A f.path :=
+        ⟨d, hd, g1, hg1, hr1, by rw [hs1]; show equalFoldGoMod goModName = true; decide, by rw [hs1]⟩
+      exact ⟨.submoduleFile, by simp [hu, hcl, hrel, hv, hb]⟩
+
+theorem pathSplit_vmt : (pathSplit vendorModulesTxt).2 = [109, 111, 100, 117, 108, 101, 115, 46, 116, 120, 116] := by
+  decide
+
+/-- a listed file sees the same module roots in the list of all files and in the list of listed files -/
+theorem belowModuleRoot_listed (g : Bool) (A L : List FileInfo) (hsub : ∀ x ∈ L, x ∈ A)
+    (hLnv : ∀ f ∈ L, isVendoredPackage f.path g = false)
+    (hanc : ∀ f ∈ L, ∀ g0 ∈ A, isVendoredPackage g0.path g = false →
+      (pathSplit g0.path).1 ∈ dirPrefixes f.path → g0 ∈ L)
+    (f : FileInfo) (hf : f ∈ L) : BelowModuleRoot A f.path ↔ BelowModuleRoot L f.path := by
+  constructor
+  · rintro ⟨d, hd, g0, hg0, hr0, he0, hs0⟩
+    refine ⟨d, hd, g0, ?_, hr0, he0, hs0⟩
+    apply hanc f hf g0 hg0 ?_ (by rw [hs0]; exact hd)
+    -- g0 is not vendored, because `f` is not
+    cases hv : isVendoredPackage g0.path g with
+    | false => rfl
+    | true =>
+      exfalso
+      obtain ⟨a, b, h1, h2⟩ := (mem_dirPrefixes_iff f.path d).mp hd
+      obtain ⟨s1, s2, _⟩ := pathSplit_spec g0.path
+      have hne : (pathSplit g0.path).1 ++ (pathSplit g0.path).2 ≠ vendorModulesTxt := by
+        intro e
+        rw [← s1] at e
+        rw [e, pathSplit_vmt] at he0
+        revert he0; decide
+      have hb : (47 : UInt8) ∉ (pathSplit g0.path).2 := by rw [s2]; exact lastElem_slashFree _
+      rw [s1] at hv
+      have := vendored_extend g (pathSplit g0.path).1 (pathSplit g0.path).2 b hb hne hv
+      rw [hs0, h2] at this
+      have hfp : f.path = a ++ [47] ++ b := by rw [h1]; simp
+      rw [← hfp, hLnv f hf] at this
+      cases this
+  · rintro ⟨d, hd, g0, hg0, r⟩
+    exact ⟨d, hd, g0, hsub g0 hg0, r⟩
+
+theorem earlyRule_listed (E : Env) (g : Bool) (A L : List FileInfo) (f : FileInfo)
+    (hb : BelowModuleRoot A f.path ↔ BelowModuleRoot L f.path) : earlyRule E g A f = earlyRule E g L f := by
+  unfold earlyRule
+  simp only [hb]
+
+/-- classification over a list and over a sublist of it, when the files left out are omitted by an
+    early rule and the others see the same module roots: same valid and invalid files, same sizes -/
+theorem classifyFrom_sublist (E : Env) (g : Bool) (A L : List FileInfo) : ∀ (l' l : List FileInfo),
+    l'.Sublist l → (l.map (·.path)).Nodup →
+    (∀ f ∈ l, f ∉ l' → ∃ r, earlyRule E g A f = some (.omitted r)) →
+    (∀ f ∈ l', earlyRule E g A f = earlyRule E g L f) →
+    ∀ reg, (classifyFrom E g A reg l).filterMap vOf = (classifyFrom E g L reg l').filterMap vOf ∧
+      (classifyFrom E g A reg l).filterMap iOf = (classifyFrom E g L reg l').filterMap iOf ∧
+      ∀ b, (classifyFrom E g A reg l).foldl bOf b = (classifyFrom E g L reg l').foldl bOf b := by
+  intro l' l h
+  induction h with
+  | slnil => intro _ _ _ reg; exact ⟨rfl, rfl, fun _ => rfl⟩
+  | @cons l1 l2 a h ih =>
+    intro hnd hout hsame reg
+    rw [List.map_cons, List.nodup_cons] at hnd
+    have ha : a ∉ l1 := fun hm => hnd.1 (List.mem_map_of_mem (f := fun x : FileInfo => x.path) (h.subset hm))
+    obtain ⟨r, hr⟩ := hout a List.mem_cons_self ha
+    obtain ⟨i1, i2, i3⟩ := ih hnd.2 (fun f hf hn => hout f (List.mem_cons_of_mem _ hf) hn) hsame reg
+    rw [classifyFrom_cons, classifyStep_some E g A reg a _ hr]
+    refine ⟨?_, ?_, ?_⟩
+    · rw [filterMap_cons_toList, i1]; simp [vOf]
+    · rw [filterMap_cons_toList, i2]; simp [iOf]
+    · intro b; rw [List.foldl_cons, i3]; simp [bOf, Class.sized]
+  | @cons_cons l1 l2 a h ih =>
+    intro hnd hout hsame reg
+    rw [List.map_cons, List.nodup_cons] at hnd
+    have ha2 : a ∉ l2 := fun hm => hnd.1 (List.mem_map_of_mem (f := fun x : FileInfo => x.path) hm)
+    have hstep : classifyStep E g A reg a = classifyStep E g L reg a := by
+      unfold classifyStep; rw [hsame a List.mem_cons_self]
+    obtain ⟨i1, i2, i3⟩ := ih hnd.2 (by
+        intro f hf hn
+        apply hout f (List.mem_cons_of_mem _ hf)
+        intro hm
+        rcases List.mem_cons.mp hm with rfl | hm
+        · exact ha2 hf
+        · exact hn hm)
+      (fun f hf => hsame f (List.mem_cons_of_mem _ hf)) (classifyStep E g L reg a).1
+    rw [classifyFrom_cons, classifyFrom_cons, hstep]
+    refine ⟨?_, ?_, ?_⟩
+    · rw [filterMap_cons_toList, filterMap_cons_toList, i1]
+    · rw [filterMap_cons_toList, filterMap_cons_toList, i2]
+    · intro b; rw [List.foldl_cons, List.foldl_cons, i3]
+
+
+/-! ### assembling `dir_vs_list` -/
+
+theorem filter_unreadable_regular (l : List FileInfo) (h : ∀ f ∈ l, f.mode = .regular) :
+    l.filter goModUnreadable = [] := by
+  apply List.filter_eq_nil_iff.mpr
+  intro f hf
+  simp [goModUnreadable, h f hf]
+
+theorem notVendored_goModName (g : Bool) : isVendoredPackage goModName g = false := by
+  cases g <;> decide
+
+/-- the go version flag the list check derives is the same for all files and for the listed files -/
+theorem goVers_listed (g : Bool) (A L : List FileInfo) (hnd : (A.map (·.path)).Nodup) (hsl : L.Sublist A)
+    (hout : ∀ f ∈ A, f ∉ L → OmittedIn g A f) : goVers L = goVers A := by
+  have hndL : (L.map (·.path)).Nodup := hnd.sublist (hsl.map _)
+  unfold goVers prePass
+  rw [prePass_ge124 A {} hnd, prePass_ge124 L {} hndL]
+  have : L.find? isRootGoMod = A.find? isRootGoMod := by
+    cases hA : A.find? isRootGoMod with
+    | none =>
+      have := List.find?_eq_none.mp hA
+      exact List.find?_eq_none.mpr (fun x hx => this x (hsl.subset hx))
+    | some f0 =>
+      have h0 := List.mem_of_find?_eq_some hA
+      have hr0 := List.find?_some hA
+      have hp0 := isRootGoMod_path f0 hr0
+      have hin : f0 ∈ L := by
+        apply Classical.byContradiction
+        intro hn
+        rcases hout f0 h0 hn with hv | ⟨d, hd, _⟩
+        · rw [hp0, notVendored_goModName] at hv; cases hv
+        · rw [hp0] at hd
+          have : dirPrefixes goModName = [] := by decide
+          rw [this] at hd; cases hd
+      cases hL : L.find? isRootGoMod with
+      | none => exact absurd hr0 (List.find?_eq_none.mp hL f0 hin)
+      | some y =>
+        have hy := List.mem_of_find?_eq_some hL
+        have hry := List.find?_some hL
+        rw [eq_of_nodup_map_path A hnd y (hsl.subset hy) f0 h0 (by rw [isRootGoMod_path y hry, hp0])]
+  rw [this]
+
+/-- C17 `dir_vs_list`, the state of the list check: over the files `listFilesInDir` lists and over all files
+    of the tree it ends with the same valid files, the same invalid list and the same size error. -/
+theorem dir_vs_list_state (E : Env) (g : Bool) (t : List (Bytes × Node)) (hw : WFChildren t)
+    (hg : g = goVers (allFiles t)) :
+    (checkFilesSt E (listFilesInDir g t).files (goVers (listFilesInDir g t).files)).validFiles =
+      (checkFilesSt E (allFiles t) (goVers (allFiles t))).validFiles ∧
+    (checkFilesSt E (listFilesInDir g t).files (goVers (listFilesInDir g t).files)).cf.valid =
+      (checkFilesSt E (allFiles t) (goVers (allFiles t))).cf.valid ∧
+    (checkFilesSt E (listFilesInDir g t).files (goVers (listFilesInDir g t).files)).cf.invalid =
+      (checkFilesSt E (allFiles t) (goVers (allFiles t))).cf.invalid ∧
+    (checkFilesSt E (listFilesInDir g t).files (goVers (listFilesInDir g t).files)).cf.sizeError =
+      (checkFilesSt E (allFiles t) (goVers (allFiles t))).cf.sizeError := by
+  obtain ⟨hnd, hfacts⟩ := allFiles_facts t hw
+  obtain ⟨hsl, hLnv⟩ := walkChildren_sub g t []
+  have hout : ∀ f ∈ allFiles t, f ∉ (listFilesInDir g t).files → OmittedIn g (allFiles t) f :=
+    walkChildren_left_out g t [] hw
+  have hanc : ∀ f ∈ (listFilesInDir g t).files, ∀ g0 ∈ allFiles t, isVendoredPackage g0.path g = false →
+      (pathSplit g0.path).1 ∈ dirPrefixes f.path → g0 ∈ (listFilesInDir g t).files :=
+    walkChildren_ancestors g t [] hw
+  change (listFilesInDir g t).files.Sublist (allFiles t) at hsl
+  change ∀ f ∈ (listFilesInDir g t).files, isVendoredPackage f.path g = false at hLnv
+  have hgv := goVers_listed g _ _ hnd hsl hout
+  rw [hgv, ← hg]
+  generalize hA : allFiles t = A at *
+  generalize hL : (listFilesInDir g t).files = L at *
+  have hndL : (L.map (·.path)).Nodup := hnd.sublist (hsl.map _)
+  have hsame : ∀ f ∈ L, earlyRule E g A f = earlyRule E g L f := fun f hf =>
+    earlyRule_listed E g A L f (belowModuleRoot_listed g A L (fun x hx => hsl.subset hx) hLnv hanc f hf)
+  have hearly : ∀ f ∈ A, f ∉ L → ∃ r, earlyRule E g A f = some (.omitted r) := fun f hf hn =>
+    earlyRule_of_omittedIn E g A f (hfacts f hf).1 (hfacts f hf).2.1 (hfacts f hf).2.2 (hout f hf hn)
+  obtain ⟨c1, c2, c3⟩ := classifyFrom_sublist E g A L L A hsl hnd hearly hsame []
+  obtain ⟨a1, a2, _, a4, a5⟩ := checkFilesSt_spec E A g hnd
+  obtain ⟨b1, b2, _, b4, b5⟩ := checkFilesSt_spec E L g hndL
+  have hfA := filter_unreadable_regular A (fun f hf => (hfacts f hf).1)
+  have hfL := filter_unreadable_regular L (fun f hf => (hfacts f (hsl.subset hf)).1)
+  unfold classifyAll at a1 a2 a4 a5 b1 b2 b4 b5
+  refine ⟨by rw [a1, b1, c1], by rw [a2, b2, c1], by rw [a4, b4, c2, hfA, hfL], ?_⟩
+  have := c3 ((MaxZipFile : Int), false)
+  rw [← a5, ← b5] at this
+  exact (congrArg Prod.snd this).symm
+
+
+/-- C17 `dir_vs_list` -/
+theorem dir_vs_list (E : Env) (mpath mvers : Bytes) (g : Bool) (t : List (Bytes × Node)) (hw : WFChildren t)
+    (hg : g = goVers (allFiles t)) :
+    (checkDir E g t).valid = (checkFilesV E (allFiles t)).valid ∧
+    (checkDir E g t).invalid = (checkFilesV E (allFiles t)).invalid ∧
+    (checkDir E g t).sizeError = (checkFilesV E (allFiles t)).sizeError ∧
+    (checkDir E g t).err = (checkFilesV E (allFiles t)).err ∧
+    createFromDir E mpath mvers g t = create E mpath mvers (allFiles t) := by
+  obtain ⟨s1, s2, s3, s4⟩ := dir_vs_list_state E g t hw hg
+  have herr : (checkFilesSt E (listFilesInDir g t).files (goVers (listFilesInDir g t).files)).cf.err =
+      (checkFilesSt E (allFiles t) (goVers (allFiles t))).cf.err := by
+    unfold CheckedFiles.err; rw [s3, s4]
+  refine ⟨s2, s3, s4, ?_, ?_⟩
+  · show CheckedFiles.err { (checkFilesSt E (listFilesInDir g t).files (goVers (listFilesInDir g t).files)).cf with
+        omitted := _ } = _
+    unfold CheckedFiles.err
+    show (if (checkFilesSt E (listFilesInDir g t).files (goVers (listFilesInDir g t).files)).cf.sizeError = true then _
+      else if (!(checkFilesSt E (listFilesInDir g t).files (goVers (listFilesInDir g t).files)).cf.invalid.isEmpty) = true
+        then _ else _) = _
+    rw [s3, s4]; rfl
+  · unfold createFromDir
+    rw [create_eq, create_eq, herr, s1]
 
 end ModVerif.Proofs.ZipA
